@@ -761,6 +761,23 @@ static void exec_cmd(toks *t) {
     if (strcmp(c, "dump") == 0) { NEED(2); GETSLOT(ci, 1, 'C', NCIF, CIFS, 1); dump_cif(&OUT, CIFS[ci]); return; }
     if (strcmp(c, "rawdump") == 0) { NEED(2); GETSLOT(ci, 1, 'C', NCIF, CIFS, 1); rawdump_cif(&OUT, CIFS[ci]); return; }
     if (strcmp(c, "autocommit") == 0) { NEED(2); GETSLOT(ci, 1, 'C', NCIF, CIFS, 1); ob_printf(&OUT, "{\"rc\":0,\"autocommit\":%d}", sqlite3_get_autocommit(CIFS[ci]->db)); return; }
+    if (strcmp(c, "cold") == 0) {
+        /* forget every cached prepared statement of every CIF, so that the next API call prepares what it needs itself */
+        int i;
+#define COLD(n) do { sqlite3_finalize(CIFS[i]->n##_stmt); CIFS[i]->n##_stmt = NULL; } while (0)
+        for (i = 0; i < NCIF; i++) {
+            if (CIFS[i] == NULL) continue;
+            COLD(create_block); COLD(get_block); COLD(get_all_blocks); COLD(create_frame); COLD(get_frame); COLD(get_all_frames);
+            COLD(destroy_container); COLD(validate_container); COLD(create_loop); COLD(get_loopnum); COLD(set_loop_category);
+            COLD(add_loop_item); COLD(get_cat_loop); COLD(get_item_loop); COLD(get_all_loops); COLD(prune_container);
+            COLD(get_value); COLD(set_all_values); COLD(get_loop_size); COLD(remove_item); COLD(destroy_loop); COLD(get_loop_names);
+            COLD(get_packet_num); COLD(update_packet_num); COLD(reset_packet_num); COLD(check_item_loop); COLD(insert_value);
+            COLD(fill_packet); COLD(update_value); COLD(remove_packet);
+        }
+#undef COLD
+        put_rc(0);
+        return;
+    }
     if (strcmp(c, "env") == 0) { ob_puts(&OUT, "{\"locale\":"); ob_jcstr(&OUT, setlocale(LC_NUMERIC, NULL)); ob_printf(&OUT, ",\"round\":%d,\"live\":%ld,\"allocs\":%ld}", fegetround(), wrap_live(), wrap_count()); return; }
     if (strcmp(c, "setlocale") == 0) { NEED(2); { const char *r = setlocale(LC_ALL, t->tok[1]); ob_puts(&OUT, "{\"rc\":0,\"locale\":"); ob_jcstr(&OUT, r); ob_putc(&OUT, '}'); } return; }
     if (strcmp(c, "setround") == 0) { NEED(2); { int m = atoi(t->tok[1]); int modes[4] = { FE_TONEAREST, FE_DOWNWARD, FE_UPWARD, FE_TOWARDZERO }; put_rc(fesetround(modes[m & 3])); } return; }
